@@ -66,10 +66,10 @@ MC_Init ==
                   ELSE <<>>
 
 \* the n-th message of a sender has its own plaintext and aad (lengths straddle block sizes)
-PtLens  == <<0, 1, 17, 32, 15, 64, 16, 33>>
-AadLens == <<0, 5, 0, 16, 1, 17, 17, 1>>
-MC_PtMenu(n)  == {Leaf("pt" \o ToString(n), PtLens[((n + LenVar) % 8) + 1])}
-MC_AadMenu(n) == {Leaf("aad" \o ToString(n), AadLens[((n + LenVar) % 8) + 1])}
+PtLens  == <<0, 1, 17, 32, 15, 64, 16, 33, 255, 256, 257, 4097>>
+AadLens == <<0, 5, 0, 16, 1, 17, 17, 1, 256, 0, 255, 33>>
+MC_PtMenu(n)  == {Leaf("pt" \o ToString(n), PtLens[((n + LenVar) % 12) + 1])}
+MC_AadMenu(n) == {Leaf("aad" \o ToString(n), AadLens[((n + LenVar) % 12) + 1])}
 
 D(k, s, i, j, n) == [k |-> k, s |-> s, i |-> i, j |-> j, n |-> n]
 SmallMenu(MsgIdx) ==
